@@ -407,3 +407,56 @@ def compare_ref(p, ref, check_variables=False):
     if not isinstance(got_modes, set) or {int(m) for m in got_modes} != want_modes:
         out.append(Mismatch("mode-set", "expected %r, got %r" % (sorted(want_modes), got_modes)))
     return out
+
+
+# ------------------------------------------------------------------ numeric closeness of delivered values
+
+def contains_sympy(v):
+    if isinstance(v, sym.Basic):
+        return True
+    if _is_rrt(v):
+        return False
+    if isinstance(v, np.ndarray):
+        return v.dtype == object and any(isinstance(x, sym.Basic) for x in v.flatten())
+    if isinstance(v, (list, tuple)):
+        return any(contains_sympy(x) for x in v)
+    if isinstance(v, dict):
+        return any(contains_sympy(x) for x in v.values())
+    return False
+
+
+def values_close(a, b, path, out, rtol=1e-9):
+    """Numerical agreement of two delivered values (kinds may differ: 3 vs 3.0)."""
+    if isinstance(a, np.ndarray) or isinstance(b, np.ndarray):
+        if not (isinstance(a, np.ndarray) and isinstance(b, np.ndarray)):
+            out.append(Mismatch("%s:array-vs-other" % path, "%r vs %r" % (a, b)))
+            return
+        if a.shape != b.shape:
+            out.append(Mismatch("%s:array-shape" % path, "%r vs %r" % (a.shape, b.shape)))
+            return
+        for x, y in zip(a.flatten(), b.flatten()):
+            values_close(x, y, path + "[]", out, rtol)
+        return
+    if isinstance(a, (list, tuple)) or isinstance(b, (list, tuple)):
+        if not (isinstance(a, (list, tuple)) and isinstance(b, (list, tuple))) or len(a) != len(b):
+            out.append(Mismatch("%s:list" % path, "%r vs %r" % (a, b)))
+            return
+        for x, y in zip(a, b):
+            values_close(x, y, path + "[]", out, rtol)
+        return
+    if isinstance(a, (str, bool, np.bool_)) or isinstance(b, (str, bool, np.bool_)):
+        if type(a) is not type(b) and not (isinstance(a, (bool, np.bool_)) and isinstance(b, (bool, np.bool_))):
+            out.append(Mismatch("%s:kind" % path, "%r vs %r" % (a, b)))
+        elif a != b:
+            out.append(Mismatch("%s:value" % path, "%r vs %r" % (a, b)))
+        return
+    if _is_rrt(a) and _is_rrt(b):
+        values_equal(a, b, path, out, rtol)
+        return
+    try:
+        ca, cb = complex(a), complex(b)
+    except Exception:
+        out.append(Mismatch("%s:non-numeric" % path, "%r vs %r" % (a, b)))
+        return
+    if ca != ca or cb != cb or abs(ca - cb) > rtol * max(abs(ca), abs(cb)):
+        out.append(Mismatch("%s:value" % path, "%r vs %r" % (a, b)))
